@@ -13,7 +13,7 @@
      nlay / n1 / n2                     number of layers and the two in-layer sizes for print axis dl            *)
 From Coq Require Import String Ascii.
 From Coq Require Import ZArith QArith List Reals Permutation Lia.
-From Pymoto Require Import Model.Grid Model.Overhang Proofs.GridP Proofs.OverhangP.
+From Pymoto Require Import Model.Grid Model.Overhang Model.OverhangHist Proofs.GridP Proofs.OverhangP Proofs.OverhangHistP.
 Import ListNotations.
 Open Scope Z_scope.
 
@@ -284,6 +284,60 @@ Print Assumptions C14_q_of_root.
 Close Scope R_scope.
 
 (* ------------------------------------------------------------------------------------------------------------ *)
+(* 10. Call histories (Model/OverhangHist.v).  Filter instances are objects with memory (self.smax, the parameters set
+       at the first response, the state of the output signal); one process holds one domain g, input signals and
+       instances cfgs (each with its own direction / nsampling / smooth min / max, connected to signal c_src; two
+       instances may read the same signal).  Events: SetSig s x (signal.state = fresh array), WriteAll s x
+       (signal.state[:] = x in place), WriteAt s i v (signal.state[i] = v in place), Respond j, Seed j w / Sens j /
+       Reset j (sensitivity calls: ANY function aux_step of the whole state into the sensitivity attributes).
+       `run` executes a history on the model with memory and returns the observed responses (instance, output state)
+       in call order; `responses_spec` is the memory-free reading: every Respond j is the layer sweep, with the
+       configuration of instance j, of the CURRENT contents of its input signal.
+       For EVERY history, every set of instances and every starting memory the two agree: all of sections 1-9 hold
+       for every response of every history.                                                                       *)
+Theorem C14_history_responses :
+  forall (T : Type) (dflt : T) (S : Type) (aux_step : grid -> list (config T) -> event T -> sys T S -> S)
+         (g : grid) (cfgs : list (config T)) (h : list (event T)) (st : sys T S),
+  fst (run dflt aux_step g cfgs h st) = responses_spec dflt g cfgs h (s_sigs st).
+Proof. exact @run_responses. Qed.
+Print Assumptions C14_history_responses.
+
+(* the filter never writes an input signal *)
+Theorem C14_history_inputs_untouched :
+  forall (T : Type) (dflt : T) (S : Type) (aux_step : grid -> list (config T) -> event T -> sys T S -> S)
+         (g : grid) (cfgs : list (config T)) (h : list (event T)) (st : sys T S),
+  s_sigs (snd (run dflt aux_step g cfgs h st)) = fold_left sig_step h (s_sigs st).
+Proof. exact @run_signals. Qed.
+Print Assumptions C14_history_inputs_untouched.
+
+(* a used instance answers like a fresh one: the responses depend on the input signals only *)
+Theorem C14_history_memory_independent :
+  forall (T : Type) (dflt : T) (S : Type) (aux_step : grid -> list (config T) -> event T -> sys T S -> S)
+         (g : grid) (cfgs : list (config T)) (h : list (event T)) (st st' : sys T S),
+  s_sigs st = s_sigs st' -> fst (run dflt aux_step g cfgs h st) = fst (run dflt aux_step g cfgs h st').
+Proof. exact @run_memory_independent. Qed.
+Print Assumptions C14_history_memory_independent.
+
+(* sensitivity() / reset() / seeding between responses changes no response *)
+Theorem C14_history_sensitivity_calls_irrelevant :
+  forall (T : Type) (dflt : T) (S : Type) (aux_step : grid -> list (config T) -> event T -> sys T S -> S)
+         (g : grid) (cfgs : list (config T)) (h : list (event T)) (st : sys T S),
+  fst (run dflt aux_step g cfgs h st) = fst (run dflt aux_step g cfgs (filter (fun e => negb (quiet e)) h) st).
+Proof. exact @run_without_quiet. Qed.
+Print Assumptions C14_history_sensitivity_calls_irrelevant.
+
+(* the map form for one instance: iterations (design given as a fresh array or written in place; any Seed / Sens /
+   Reset calls; response()) return the map of the sweep over the designs *)
+Theorem C14_single_instance_history :
+  forall (T : Type) (dflt : T) (S : Type) (aux_step : grid -> list (config T) -> event T -> sys T S -> S)
+         (g : grid) (c : config T) (its : list (bool * list T * list (event T))) (st : sys T S),
+  c_src c = 0%nat -> s_sigs st <> [] -> (forall it, In it its -> forallb quiet (snd it) = true) ->
+  fst (run dflt aux_step g [c] (flat_map iteration its) st) =
+  map (fun it => (0%nat, sweep (c_smin c) (c_smax c) dflt g (c_dl c) (c_dx c) (c_ns c) (snd (fst it)))) its.
+Proof. exact @single_instance_history. Qed.
+Print Assumptions C14_single_instance_history.
+
+(* ------------------------------------------------------------------------------------------------------------ *)
 (* non-vacuity: concrete non-trivial instances (exact rational instance p = 2, q = 1, eps = 0)                     *)
 Definition ex_g : grid := {| nelx := 3; nely := 3; nelz := 0 |}.
 Definition ex_x : list Q := [1; 0; 1 # 2; 1; 1 # 2; 0; 1; 1; 1]%Q.
@@ -312,3 +366,19 @@ Proof.
   apply (sup_step _ _ _ _ _ 0%nat (0, 0) (0, 0)); [reflexivity | vm_compute; auto | reflexivity |].
   apply sup_base. reflexivity.
 Qed.
+(* a history on ex_g: two instances (+y and x-) reading the SAME signal, the design replaced, one entry written in
+   place, sensitivity calls in between; evaluated on the model with memory *)
+Example C14_example_history :
+  match all_some [cfgQ ex_g 0 (DStr "+y") None 2 1 0; cfgQ ex_g 0 (DStr "x-") (Some 3) 2 1 0] with
+  | Some cfgs =>
+      run_Q ex_g cfgs [ex_x]
+            [Respond 0; Seed 0 ex_x; Sens 0; Reset 0; Respond 1; WriteAt 0 5 1%Q; Respond 0;
+             SetSig 0 [0; 0; 0; 0; 1; 0; 0; 0; 0]%Q; Respond 1; Respond 0] =
+      [(0%nat, [1; 0; 1 # 2; 1; 1 # 2; 0; 1; 1; 1 # 4]%Q);
+       (1%nat, [1 # 4; 0; 1 # 2; 1; 1 # 2; 0; 1; 1; 1]%Q);
+       (0%nat, [1; 0; 1 # 2; 1; 1 # 2; 1 # 4; 1; 1; 5 # 16]%Q);
+       (1%nat, [0; 0; 0; 0; 0; 0; 0; 0; 0]%Q);
+       (0%nat, [0; 0; 0; 0; 0; 0; 0; 0; 0]%Q)]
+  | None => False
+  end.
+Proof. vm_compute. reflexivity. Qed.
